@@ -266,12 +266,33 @@ def hierarchy_models(max_classes=4):
                     yield sname, hierarchy(sname, adds, abstract, unreg)
 
 
+def scalar_union_models():
+    """Unions whose members are all written as a string scalar (str, Path, an enum, string-like classes), in both
+    orders: a string matches two members, which is an ambiguity whatever the order; and keyword-only parameters"""
+    ws = {'name': 'Ws', 'kind': 'strsub'}
+    members = ['str', 'path', ('cls', 'E'), ('cls', 'S'), ('cls', 'Ws')]
+    for a, b_ in itertools.permutations(members, 2):
+        # (a null / an int keeps every model supplied with a document it accepts)
+        yield 'scalar-union', {'classes': BASE + [ws], 'root': ('opt', ('union', [a, b_]))}
+        yield 'scalar-union', {'classes': BASE + [ws], 'root': ('union', [a, b_, 'int'])}
+        yield 'scalar-union', {'classes': BASE + [ws, {'name': 'K', 'params': [('u', ('union', [a, 'int', b_])), ('l', ('list', ('union', [b_, 'int', a])), None)]}],
+                               'root': ('cls', 'K')}
+    for t in (('union', ['int', ('cls', 'E')]), ('union', ['float', 'path', 'int']), ('union', ['bool', ('cls', 'S')]), ('union', ['date', 'str']),
+              ('union', ['none', ('cls', 'E'), 'int'])):
+        yield 'scalar-union', {'classes': BASE, 'root': ('dict', 'str', t)}
+    kwdocs = [('m', 'map', ((('s', 'str', 'x'), ('s', 'int', '1')), (('s', 'str', 'k'), v)))
+              for v in (('s', 'int', '2'), ('s', 'str', 'a'), ('m', 'map', ((('s', 'str', 'p'), ('s', 'int', '1')),)))]
+    k8 = {'name': 'K', 'params': [('x', 'int'), ('y', 'int', 0)], 'kwonly': [('k', 'int'), ('u', 'untyped')], 'docs': kwdocs}
+    yield 'kwonly', {'classes': BASE + [k8], 'root': ('cls', 'K')}
+    yield 'kwonly', {'classes': BASE + [dict(k8, extra=True)], 'root': ('list', ('cls', 'K'))}
+
+
 def all_load_models(tier):
     """the C02 catalogue: auto-recognised models"""
     out = []
     for gen in (root_models(), one_param_models(), two_param_models(full=(tier == 'thorough')),
                 nested_models(), seasoned_models(), shorthand_models(), element_order_models(), hook_sharing_models(),
-                union_class_models()):
+                union_class_models(), scalar_union_models()):
         for fam, spec in gen:
             if spec is not None:
                 out.append((fam, spec))
